@@ -186,6 +186,12 @@ def OPS(E):
         hs = r.pump_async(8)
         return out + sorted(hs)
 
+    def async_signing_handle(r):
+        # KSI_AsyncSigningHandle_new: hash and level handed over directly (the hash stays the caller's when the call fails)
+        out = [r.c('async_add 0 0 signh %s 0 t1' % h.hex()).get('rc')]
+        out += [r.c('async_add 0 0 signh %s 3 t2' % R.H(1, b'second').hex()).get('rc')]
+        return out + sorted(r.pump_async(8))
+
     def with_async_ext(r):
         with_async('extend')(r)
         r.c('sigparse 0 0 empty ' + E.sig_hex)
@@ -226,6 +232,7 @@ def OPS(E):
         'async_sign_tcp': (with_async('sign'), async_sign),
         'async_conf_tcp': (with_async('sign'), async_conf),
         'async_extend_signature': (with_async_ext, async_extend_signature),
+        'async_signing_handle': (with_async('sign'), async_signing_handle),
         'ha_sign': (with_async('hasign', 'ksi+tcp://b.example:1'), async_sign),
         'blocksign': (with_net, one('blocksign 0 5 1 1 7', ('rc', 'nsig'))),
         'blocksign_plain': (with_net, one('blocksign 0 9 0 0 8', ('rc', 'nsig'))),
